@@ -322,6 +322,32 @@ def pred_escape_span_multibyte(text, r):
     return bool(labs) and all(m == 'invalid escape sequence' and e_ == s_ + 2 and b[s_:s_ + 1] == b'\\' and b[s_ + 1] >= 0x80 for m, s_, e_ in labs)
 
 
+def pred_line_comment_at_eof_without_newline(text, res):
+    """D28, on a result of _gen_batch (C13): the text does not end in a newline, its last line holds `//` outside any
+    string or comment (two adjacent Slash tokens of the real lexer: the comment that lacks its closing newline), the
+    one and only syntax diagnostic sits on the first of these two slashes, and every other diagnostic (lexer errors
+    drawn by the comment's own text) lies behind it"""
+    if text.endswith('\n') or not isinstance(res, dict):
+        return False
+    toks, fp = res.get('front_tokens'), res.get('front_parse')
+    if not isinstance(toks, list) or not isinstance(fp, list):
+        return False
+    line_start = len(text[:text.rfind('\n') + 1].encode('utf-8'))
+    p = None
+    for a, b in zip(toks, toks[1:]):
+        if a[0] == 'Slash' and b[0] == 'Slash' and a[2] == b[1] and a[1] >= line_start:
+            p = a[1]
+            break
+    if p is None or not any(t[0] not in k4.TRIVIA for t in toks if t[2] <= p):
+        return False
+    syn = [d for d in fp + list(res.get('syntax') or []) if d.get('message', '').startswith('invalid syntax')]
+    if not syn or any([(l['start'], l['end']) for l in d.get('labels', [])] != [(p, p + 1)] for d in syn):
+        return False
+    if sum(1 for d in fp if d.get('message', '').startswith('invalid syntax')) != 1:
+        return False
+    return all(l['start'] >= p for d in fp for l in d.get('labels', []))
+
+
 # class name -> (kind of failure it explains, predicate)
 CLASSES = {
     'invalid_escape_span_multibyte': ('diag_span_boundary', pred_escape_span_multibyte),
@@ -333,6 +359,7 @@ CLASSES = {
     'format_comment_after_open_bracket': ('not_idempotent', pred_format_comment_after_open_bracket),
     'format_block_comment_before_decl': ('not_idempotent', pred_format_block_comment_before_decl),
     'format_indented_file_level_comment': ('not_idempotent', pred_format_indented_file_level_comment),
+    'line_comment_at_eof_without_newline': ('syntax_error', pred_line_comment_at_eof_without_newline),
 }
 
 
@@ -1264,7 +1291,9 @@ def _gen_batch(arg):
     shutil.rmtree(sub, ignore_errors=True)
     return [{'dump': r.get('dump'), 'panic': r.get('panic'), 'died': r.get('died'),
              'syntax': [d for d in r.get('diags', []) if not d.get('code')],
-             'front_parse': f.get('parse') if k4.ok_result(f) else {'status': status_of(f)}} for r, f in zip(res, front)]
+             'front_parse': f.get('parse') if k4.ok_result(f) else {'status': status_of(f)},
+             'front_tokens': f['tokens'].get('toks') if (not t.endswith('\n') and k4.ok_result(f) and isinstance(f['tokens'], dict)) else None}
+            for r, f, t in zip(res, front, texts)]
 
 
 def c13_verdict(canon, expect_struct, res):
@@ -1305,7 +1334,8 @@ def check_C13(work, args):
     if replay_path(args):
         rp = json.load(open(replay_path(args)))['replay']
         res = _gen_batch((os.path.join(work, 'replay'), [rp['text']]))[0]
-        replay_verdict('C13', replay_path(args), c13_verdict(rp.get('canon'), rp.get('struct'), res), None)
+        v = c13_verdict(rp.get('canon'), rp.get('struct'), res)
+        replay_verdict('C13', replay_path(args), v, Findings('C13').match(classes_for(v['kind'], rp['text'], res)) if v else None)
     quick = ck.tier == 'quick'
     rng = ck.rng
     n_g = 600 if quick else 5000
@@ -1326,6 +1356,12 @@ def check_C13(work, args):
             continue
         for _ in range(n_l if c['origin'] == 'random' else 12):
             items.append(dict(c, text=k4.relayout(rng, tk, keep_comments=True), layout='random'))
+    # D28: a line / doc comment behind the last token with no newline behind it (a handful per run, and the recorded witnesses)
+    kf = Findings('C13')
+    for it in [x for x in rng.sample(items, min(len(items), 8 if quick else 60))]:
+        items.append(dict(it, text=k4.eof_comment_layout(rng, it['text']), layout='comment at end of file without newline'))
+    for e in kf.entries:
+        items.append({'written': e['witness']['text'], 'canon': None, 'struct': None, 'origin': 'witness ' + e['id'], 'text': e['witness']['text'], 'layout': 'witness'})
     batches = chunks(items, 60)
     results = pmap(_gen_batch, [(os.path.join(work, 'c13', str(i)), [it['text'] for it in b]) for i, b in enumerate(batches)])
     fails = []
@@ -1343,6 +1379,13 @@ def check_C13(work, args):
                 layouts_with_comments += 1
             v = c13_verdict(it['canon'], it['struct'], res)
             if v is not None:
+                v['classes'] = classes_for(v['kind'], it['text'], res)
+                kid = kf.match(v['classes'])
+                if kid is not None:
+                    kf.hits[kid] += 1
+                    if it['origin'] == 'witness ' + kid:
+                        ck.known.append('%s: %s on %r: %s' % (kid, kf.by_class[v['classes'][0]]['class'], it['text'], v['what'][:300]))
+                    continue
                 fails.append(dict(v, text=it['text'], written=it['written'], origin=it['origin'], canon=it['canon'], struct=it['struct']))
             elif res.get('dump'):
                 rules = res['dump']['rules']
@@ -1384,6 +1427,8 @@ def check_C13(work, args):
         'layouts_containing_comments': layouts_with_comments, 'text_length_histogram_bytes': dict(lens),
         'typed_view_node_kinds_seen': dict(nodes), 'grammar_feature_histogram': dict(feats),
         'failing_layouts': len(fails), 'failure_kinds': {k_: len(v) for k_, v in groups.items()},
+        'known_findings': {'layouts_ending_in_a_comment_without_newline': sum(1 for it in items if it['layout'] == 'comment at end of file without newline'),
+                           'attributed_to_known_findings': dict(kf.hits)},
     }
     ck.cov.update(lexcov)
     ck.assumptions = TRUST + ['harness/src/dump.rs reads the typed view through the public ast.rs accessors', 'the reference is tools/k4_front.py\'s printer pp (minimal parentheses by precedence)']
